@@ -180,7 +180,13 @@ Consume(n) ==
     /\ part = "cons" /\ Len(docs) < MaxConsume
     /\ docs' = Append(docs, D(1, 1, Rows(docs), Rows(docs) + n))
     /\ UNCHANGED <<part, par, sel>>
-Next == PickInputs \/ \E n \in 1..MaxDLen : Consume(n)
+\* datums of one stream need not be consumed in index order: any two consumed datums may have arrived the other way
+\* round (the map carries each datum's own indices, the shape only depends on the number of rows)
+Reorder(k) ==
+    /\ part = "cons" /\ k \in 1..(Len(docs) - 1)
+    /\ docs' = [docs EXCEPT ![k] = docs[k + 1], ![k + 1] = docs[k]]
+    /\ UNCHANGED <<part, par, sel>>
+Next == PickInputs \/ (\E n \in 1..MaxDLen : Consume(n)) \/ (\E k \in 1..MaxConsume : Reorder(k))
 Spec == Init /\ [][Next]_vars
 
 ----------------------------------------------------------------------------
@@ -231,6 +237,9 @@ DumpConcat ==
 RECURSIVE Streams(_, _)
 Streams(n, start) ==       \* all sequences of at most n contiguous datums
     {<<>>} \cup (IF n = 0 THEN {} ELSE UNION {{<<D(1, 1, start, start + len)>> \o t : t \in Streams(n - 1, start + len)} : len \in 1..MaxDLen})
+\* ... consumed in every order
+Orders(ds) == {[k \in 1..Len(ds) |-> ds[q[k]]] : q \in Perms(Len(ds))}
+AllStreams == UNION {Orders(ds) : ds \in Streams(MaxConsume, 0)}
 ConsCase(p, ds) ==
     [par |-> p, docs |-> [k \in 1..Len(ds) |-> Flat(ds[k])], rows |-> Rows(ds), dshape |-> DatumShape(p),
      shape |-> Shape(p, Rows(ds)), chunks |-> Chunks(p, Rows(ds)), map |-> SetToSeq(SeqMap(ds)), kf |-> KF_ScalarPerDatum(p)]
@@ -238,5 +247,5 @@ DumpCons ==
     TLCGet("stats").generated >= 0 /\
     \A sh \in Shapes :
         ndJsonSerialize(IOEnv.CASES_OUT \o "." \o ToString(IF sh = <<>> THEN 0 ELSE IF Len(sh) = 1 THEN sh[1] ELSE 10 * sh[1] + sh[2]),
-                        SetToSeq({ConsCase(p, ds) : p \in {q \in Pars : q.dshape = sh}, ds \in Streams(MaxConsume, 0)}))
+                        SetToSeq({ConsCase(p, ds) : p \in {q \in Pars : q.dshape = sh}, ds \in AllStreams}))
 =============================================================================
